@@ -71,6 +71,10 @@ func (c *EthernetCTPReply) LayerType() gopacket.LayerType {
 func (c *EthernetCTPReply) Payload() []byte { return c.Data }
 
 func decodeEthernetCTP(data []byte, p gopacket.PacketBuilder) error {
+	if len(data) < 2 {
+		p.SetTruncated()
+		return fmt.Errorf("EthernetCTP packet too short: %d bytes", len(data))
+	}
 	c := &EthernetCTP{
 		SkipCount: binary.LittleEndian.Uint16(data[:2]),
 		BaseLayer: BaseLayer{data[:2], data[2:]},
@@ -85,9 +89,17 @@ func decodeEthernetCTP(data []byte, p gopacket.PacketBuilder) error {
 // decodeEthernetCTPFromFunctionType reads in the first 2 bytes to determine the EthernetCTP
 // layer type to decode next, then decodes based on that.
 func decodeEthernetCTPFromFunctionType(data []byte, p gopacket.PacketBuilder) error {
+	if len(data) < 2 {
+		p.SetTruncated()
+		return fmt.Errorf("EthernetCTP function too short: %d bytes", len(data))
+	}
 	function := EthernetCTPFunction(binary.LittleEndian.Uint16(data[:2]))
 	switch function {
 	case EthernetCTPFunctionReply:
+		if len(data) < 4 {
+			p.SetTruncated()
+			return fmt.Errorf("EthernetCTP reply too short: %d bytes", len(data))
+		}
 		reply := &EthernetCTPReply{
 			Function:      function,
 			ReceiptNumber: binary.LittleEndian.Uint16(data[2:4]),
@@ -98,6 +110,10 @@ func decodeEthernetCTPFromFunctionType(data []byte, p gopacket.PacketBuilder) er
 		p.SetApplicationLayer(reply)
 		return nil
 	case EthernetCTPFunctionForwardData:
+		if len(data) < 8 {
+			p.SetTruncated()
+			return fmt.Errorf("EthernetCTP forward data too short: %d bytes", len(data))
+		}
 		forward := &EthernetCTPForwardData{
 			Function:       function,
 			ForwardAddress: data[2:8],
